@@ -139,6 +139,7 @@ RULE_GROUPS: Dict[str, Callable] = {
     'bw.merges': bw.rule_merges,
     'bw.string_annotations': bw.rule_string_annotations,
     'bw.build_node': bw.rule_build_node,
+    'bw.recurrent_validations': bw.rule_recurrent_validations,
 }
 
 RULES: Dict[str, Tuple[str, str]] = {
@@ -722,4 +723,5 @@ EXTRA_GROUPS = {
     'C03': ['st.ready_vs_active_subgraph', 'st.kwargs_hidden_verdict'],
     'C11': ['st.ready_vs_active_subgraph', 'st.kwargs_hidden_verdict'],
     'C09': ['st.kwargs_hidden_verdict'],
+    'C16': ['bw.recurrent_validations'],
 }
